@@ -393,7 +393,19 @@ pub fn path_coverage<K: Kit>(kit: &K, sp: &K::SP, eval: &WorldEval<K>, acc: &Acc
         // but may be different representations (+pi / -pi, q / -q); a user checker that depends
         // on the representation must not turn that into an alarm
         let (run_ab, _) = dense_invalid_run(kit, sp, eval, &a, &b, lvs);
-        let run = if run_ab > 0.0 { run_ab.min(dense_invalid_run(kit, sp, eval, &b, &a, lvs).0) } else { 0.0 };
+        let run = if run_ab > 0.0 {
+            // ... unless the two directions are different *motions* (two arcs between antipodal
+            // end points): then the arc the path itself takes is the one that counts
+            let same_motion = [0.25, 0.5, 0.75].iter().all(|t| {
+                let (mut x, mut y) = (a.clone(), a.clone());
+                sp.interpolate(&a, &b, *t, &mut x);
+                sp.interpolate(&b, &a, 1.0 - *t, &mut y);
+                same_up_to_rounding(kit.spec(), &K::flat(&x), &K::flat(&y)) || sp.distance(&x, &y) <= tol
+            });
+            if same_motion { run_ab.min(dense_invalid_run(kit, sp, eval, &b, &a, lvs).0) } else { run_ab }
+        } else {
+            0.0
+        };
         if lvs > 0.0 && run >= lvs + 2.0 * lvs / 64.0 + tol {
             f.push(("invalid-stretch-on-segment".into(), format!("segment {i}->{} (length {l}) crosses an invalid stretch of length >= {run} (lvs {lvs})", i + 1)));
         }
